@@ -10,12 +10,13 @@ ASSUMPTIONS = [
     "compared three-valued (match / no match / bad pattern) with the Go code on every run, exhaustively on short strings",
     "Set.Filter is modelled as the list filter with the boolean `matched && err == nil`; the set is a duplicate-free list, "
     "results compared as sets",
-    "model = spec is proved for patterns whose literal text outside classes consists of whole UTF-8 characters "
-    "(pattern_aligned: every valid-UTF-8 pattern, every ASCII pattern); for other patterns only soundness and the "
-    "malformed-pattern part are proved and the Go code is compared with the model only",
+    "model = spec is proved for every valid UTF-8 pattern (more generally: literal text outside classes consists of whole "
+    "UTF-8 characters, pattern_aligned) and every name; for patterns that are not valid UTF-8 the full equality is false "
+    "(props/C17.v C17_unaligned_pattern_differs), only soundness and the malformed-pattern part are proved, and the Go code "
+    "is compared with the model only (such patterns are outside the property's quantifier)",
 ]
-EXPLANATION = ("Theorems: gmatch (transcription of match.go) = spec_match (parser to items + denotation) for all aligned patterns and "
-               "all names of any length; malformed patterns match nothing; a match is always justified by the denotation (all patterns); "
+EXPLANATION = ("Theorems: gmatch (transcription of match.go) = spec_match (parser to items + denotation) for all valid UTF-8 patterns and "
+               "all names (any bytes) of any length; malformed patterns match nothing; a match is always justified by the denotation (all patterns); "
                "star crosses '/'; Set.Filter = the names that spec-match; the index expressions chunk[0]/s[0] never go out of range. "
                "Correspondence: the Go matcher, the extracted model and the extracted declarative spec on every pattern of length <= 4 "
                "over {a b * ? [ ] ^ - \\ /} x every name of length <= 4 over {a b / -}, Set.Filter on whole sets, and random longer "
@@ -192,6 +193,10 @@ def run_rand(ctx, corr, binp, drv, n):
         aligned = ml[2] == 'A'
         if valid == '1' and not aligned:
             valid_not_aligned += 1
+        if (valid == '1') != (ml[3] == 'V'):
+            # the model's UTF-8 decoder disagrees with utf8.ValidString on the pattern
+            corr.disagreements.append({'klass': 'utf8-valid-flag', 'case': mk_case(2 * 10 ** 9 + i, 'utf8-valid-flag', p, nm),
+                                       'impl': 'utf8.ValidString(pattern) = ' + valid, 'model': 'utf8_valid = ' + ml[3]})
         if not aligned:
             outside += 1
         if len(corr.samples) < 4 and i % 997 == 30:
@@ -225,7 +230,7 @@ def correspondence(ctx):
     drv = os.path.join(V.BUILD, 'extract', 'glob', 'glob_driver')
     if not os.path.exists(drv):
         raise V.BuildError('glob_driver was not built')
-    run_rand(ctx, corr, binp, drv, 6000 if ctx.tier == 'quick' else 300000)
+    run_rand(ctx, corr, binp, drv, 30000 if ctx.tier == 'quick' else 300000)
     run_filter(ctx, corr, binp, drv, 3, 3)
     if ctx.tier == 'quick':
         run_enum(ctx, corr, binp, drv, 0, 4, 4, 'q')
